@@ -373,9 +373,13 @@ def run_obligation1(u, ob, bdir, trace=False):
             failed.append({'property': 'no_return', 'description': 'function returns normally although the contract says it must stop in the assertion hook',
                            'status': 'FAILURE', 'source': {}})
     elif not canary_reached:
-        res['detail'] = 'reachability canary did not fire: precondition or harness is vacuous'
-        res['status'] = 'vacuous'
-        return res
+        real = [f for f in failed if 'unwinding assertion' not in f['description'] and 'recursion unwinding' not in f['description']]
+        if not real:
+            res['detail'] = 'reachability canary did not fire: precondition or harness is vacuous'
+            res['status'] = 'vacuous'
+            return res
+        # an obligation failed on every path to the end of the harness (each failing assertion also ends its path): that is a failure
+        # of those obligations, not a vacuous harness
     if total == 0:
         res['detail'] = 'no obligations generated'
         res['status'] = 'vacuous'
